@@ -888,7 +888,12 @@ def fold(ctx, r):
             else:
                 r.ob(True, key, OPT, line, "", sample=f"fold {v3}: declined on every error case of the arm ({ncase} folded ordering cases)")
         except oc.Unknown as e:
-            r.missing(key + ":case-table", OPT, f"not evaluable: {e}")
+            texts = [t for c, _ in pev.conds for t in subterms(c) if isinstance(t, tuple) and t and t[0] == "text"]
+            if texts:
+                r.find(key + ":guard-compares-spelling", OPT, line,
+                       f"fold of {v3}: the condition under which the fold is taken compares the literal's spelling with {sorted({repr(t[1]) for t in texts})}; a literal has many spellings of the same value (`0.0`, `0.00`, `0`, `-0`, the text produced by an earlier fold), so the error cases of the VM arm are not excluded by value")
+            else:
+                r.missing(key + ":case-table", OPT, f"not evaluable: {e}")
     r.count("constant-fold cases", n, 10, OPT)
     # one-instruction rewrites
     p1 = fns.get("peephole1_helper")
